@@ -861,7 +861,7 @@ func (vf *VFlow) Deep(ls LabelSet) LabelSet {
 			return
 		}
 		seen[l] = true
-		if strings.HasPrefix(l, "alloc:") {
+		if strings.HasPrefix(l, "alloc:") && vf.isContainerAlloc(l) {
 			tmp := LabelSet{}
 			vf.allocElems(l, fl, tmp, map[string]bool{}, 0)
 			for k, f := range tmp {
@@ -878,6 +878,23 @@ func (vf *VFlow) Deep(ls LabelSet) LabelSet {
 		rec(k, f, 0)
 	}
 	return out
+}
+
+// isContainerAlloc: the allocation labelled l is an array (backing store of a slice literal / varargs) or a make()d slice/map.
+func (vf *VFlow) isContainerAlloc(l string) bool {
+	if strings.HasSuffix(l, "@make") {
+		return true
+	}
+	base, sub := splitAllocLabel(l)
+	if sub != "" {
+		return false
+	}
+	cell := vf.allocByLabel(base)
+	if cell == nil {
+		return false
+	}
+	_, isArr := cell.Type().Underlying().(*types.Pointer).Elem().Underlying().(*types.Array)
+	return isArr
 }
 
 // StoreSourcesIn: like FieldStoreSources but only the store sites inside function fnKey
